@@ -309,3 +309,6 @@ func (m *Model) Lex(in string) Result {
 	res.EndOff = off
 	return res
 }
+
+// Expanded returns the rule list of a state with includes spliced in place.
+func (m *Model) Expanded(state string) []Rule { return m.expanded[state] }
